@@ -108,9 +108,10 @@ Lemma yylex_step e fuel st p closed id u rest others j r :
   | Return t v s2 p2 d => {| r_tok := t; r_val := v; r_st := s2; r_pos := p2; r_diags := d; r_closed := closed; r_fuel_out := false |}
   end.
 Proof.
-  intros Hsc Hb Hm Hn. cbn [yylex]. rewrite Hb, Hsc. fold R. rewrite Hm. fold A. rewrite Hn.
+  intros Hsc Hb Hm Hn. cbn [yylex]. unfold lex_step. rewrite Hb, Hsc. fold R. rewrite Hm. fold A. rewrite Hn.
   rewrite firstn_app, Nat.sub_diag, firstn_all, app_nil_r.
-  rewrite skipn_app, Nat.sub_diag, skipn_all. cbn [skipn app]. reflexivity.
+  rewrite skipn_app, Nat.sub_diag, skipn_all. cbn [skipn app].
+  destruct (run_action e (r_act r) u (set_bufs st ((id, rest) :: others)) p); reflexivity.
 Qed.
 
 End Table.
